@@ -556,3 +556,18 @@ V("C01", "normfactor-einsum-sum-mods", "fire", "C01.R10", "normfactor einsum sum
   ("src/pyhf/modifiers/normfactor.py", "                'msab,m->msab', self.normfactor_mask, normfactors", "                'msab,x->msab', self.normfactor_mask, normfactors"))
 V("C01", "shapefactor-where-swapped", "fire", "C01.R10", "shapefactor where() arms swapped",
   ("src/pyhf/modifiers/shapefactor.py", "self.shapefactor_mask, results_shapefactor, self.shapefactor_default", "self.shapefactor_mask, self.shapefactor_default, results_shapefactor"))
+
+# ------------------------------------------------------------------ C18.R5: writer composed with reader
+WX, RX = "src/pyhf/writexml.py", "src/pyhf/readxml.py"
+V("C18", "rt-histosys-names-crossed", "fire", "C18.R5", "histosys low histogram exported under the High name",
+  (WX, "        _export_root_histogram(attrs['HistoNameLow'], modifierspec['data']['lo_data'])\n        _export_root_histogram(attrs['HistoNameHigh'], modifierspec['data']['hi_data'])", "        _export_root_histogram(attrs['HistoNameHigh'], modifierspec['data']['lo_data'])\n        _export_root_histogram(attrs['HistoNameLow'], modifierspec['data']['hi_data'])"))
+V("C18", "rt-shapesys-times-uncertainty", "fire", "C18.R5", "reader rescales shapesys by the histogram error instead of the yield",
+  (RX, "                'data': [a * b for a, b in zip(data, shapesys_data)],", "                'data': [a * b for a, b in zip(err, shapesys_data)],"))
+V("C18", "rt-fixed-lumi-dropped", "fire", "C18.R5", "a constant luminosity is not listed in ParamSetting",
+  (WX, "            if pname == 'lumi':\n                fixed_params.append('Lumi')\n            else:", "            if pname == 'lumi':\n                pass\n            else:"))
+V("C18", "rt-observation-from-first-sample", "fire", "C18.R5", "Data element points at a sample histogram",
+  (WX, "    histname = _make_hist_name(channelname, 'data')\n    data = ET.Element('Data', HistoName=histname,", "    histname = _make_hist_name(channelname, 'data')\n    data = ET.Element('Data', HistoName=_make_hist_name(channelname, 's1'),"))
+V("C18", "rt-normfactor-val-from-low", "fire", "C18.R5", "reader takes the normfactor start value from Low",
+  (RX, "                'inits': [float(modtag.attrib['Val'])],", "                'inits': [float(modtag.attrib['Low'])],"))
+V("C18", "rt-attr-order", "silent", "", "Sample attributes listed in another order",
+  (WX, "        'Name': samplespec['name'],\n        'HistoName': histname,", "        'HistoName': histname,\n        'Name': samplespec['name'],"))
